@@ -282,6 +282,10 @@ func (x *pluginTx) expr(e ast.Expr) string {
 		}
 		return t.fail(v, "selector %s", pluginSrc(t.pkg.Fset, v))
 	case *ast.CallExpr:
+		if id, isId := v.Fun.(*ast.Ident); isId && id.Name == "isFactoryType" && len(v.Args) == 1 {
+			// round 6: the regenerated Lean function of the same name (defined before its first use in Gen/Plugin.lean)
+			return "(isFactoryType " + x.expr(v.Args[0]) + ")"
+		}
 		sel, ok := v.Fun.(*ast.SelectorExpr)
 		if !ok {
 			return t.fail(v, "call %s", pluginSrc(t.pkg.Fset, v))
@@ -1075,6 +1079,7 @@ func pluginExtra(t *tr) string {
 	}
 	sort.Strings(rows)
 	fmt.Fprintf(&b, "/-- regenerated from core/register: (helper, type of its pointer variable, the call it makes) -/\ndef registerHelpers : List (String × String × String) :=\n  [%s]\n", strings.Join(rows, ",\n   "))
+	b.WriteString(pluginR6(t, p, x))
 	return b.String()
 }
 
